@@ -17,9 +17,9 @@ type c03Case struct {
 	Op   string   `json:"op"` // delete | erase | slice
 	L    int      `json:"L"`
 	Locs []string `json:"locations"`
-	Keys []string `json:"keys,omitempty"` // default h<k>; "source" exercises the exceptions
-	I    int      `json:"i"`              // delete/erase: offset; slice: start
-	N    int      `json:"n"`              // delete/erase: length; slice: end
+	Keys []string `json:"keys,omitempty"`        // default h<k>; "source" exercises the exceptions
+	I    int      `json:"i"`                     // delete/erase: offset; slice: start
+	N    int      `json:"n"`                     // delete/erase: length; slice: end
 	Wide bool     `json:"wide_domain,omitempty"` // location from the non-clean domain: relaxed oracle (de-duplicated bases in order, range)
 }
 
